@@ -566,7 +566,7 @@ pub fn run(args: &Args) -> Report {
         byte_exactness(&mut rep, &mut rng, if miri { 300 } else if args.thorough() { 8 << 20 } else { 1 << 20 });
     }
 
-    rep.floor("error_classes_seen", rep.n_seen("error_classes"), if miri { 2 } else { 4 });
+    rep.floor_set("error_classes", if miri { 2 } else { 4 });
     rep.floor("product_cases", run_cases, if miri { 50 } else { 1000 });
     rep
 }
